@@ -55,6 +55,11 @@ class Intervals:
             self.enum_rng[name] = (min(vals), max(vals))
         self.used_assumptions = set()
         self.on_call = None
+        self._tr = {}
+        self._static = {}
+        self._pk = {}
+        self.shift_sites = True
+        self.memo_out = {}
 
     # -- types --------------------------------------------------------------------------
     def type_range(self, n_or_t, enum_semantic=True):
@@ -63,6 +68,13 @@ class Intervals:
             ct = n_or_t.get('ct', t)
         else:
             t = ct = n_or_t
+        key = (t, ct, enum_semantic)
+        r = self._tr.get(key)
+        if r is None:
+            r = self._tr[key] = self._type_range(t, ct, enum_semantic)
+        return r
+
+    def _type_range(self, t, ct, enum_semantic):
         t = t.replace('const ', '').replace('volatile ', '').strip().rstrip('&').strip()
         ct = ct.replace('const ', '').replace('volatile ', '').strip().rstrip('&').strip()
         if enum_semantic:
@@ -116,10 +128,14 @@ class Intervals:
                 if t2 != TOP:
                     itv = t2
             env0[q['id']] = itv
-        heads = set(d for s, d in c.back_edges())
+        st_ = self._static.get(fn.id)
+        if st_ is not None:
+            heads, modified = st_
+        else:
+            heads = set(d for s, d in c.back_edges())
+            modified = {}
         # variables modified inside each loop (only those may be widened at its head)
-        modified = {}
-        for s_, d_ in c.back_edges():
+        for s_, d_ in (c.back_edges() if st_ is None else ()):
             body = c.natural_loop(s_, d_)
             mods = modified.setdefault(d_, set())
             for b_ in body:
@@ -150,6 +166,7 @@ class Intervals:
                         for d2 in kids(n_):
                             if d2['k'] == 'VarDecl':
                                 mods.add(d2['id'])
+        self._static[fn.id] = (heads, modified)
         inb = {c.entry: env0}
         visits = {}
         ret = [None]
@@ -278,10 +295,45 @@ class Intervals:
         site_itv[n['i']] = hull(site_itv.get(n['i']), v if v is not None else TOP)
 
     # -- expressions --------------------------------------------------------------------------------
+    def pure_key(self, fn, e):
+        """key for side-effect-free expressions that can be refined by a comparison and stay valid until
+        the next mutation: `this->field`, `obj.const_method()` without arguments"""
+        e = strip_casts(e)
+        if e is None:
+            return None
+        ck = self._pk.get((fn.id, e['i']), 0)
+        if ck != 0:
+            return ck
+        key = None
+        r = e.get('ref')
+        if e['k'] == 'MemberExpr' and r and r['k'] == 'Field':
+            ks = kids(e)
+            if ks and ks[0]['k'] == 'CXXThisExpr':
+                key = 'F:' + r['n']
+        elif e['k'] == 'CXXMemberCallExpr' and e.get('callee', {}).get('const') and len(kids(e)) == 1:
+            obj = kids(kids(e)[0])
+            if obj:
+                o = strip_casts(obj[0])
+                if o['k'] == 'CXXThisExpr':
+                    key = 'M:this.' + e['callee']['n']
+                elif o.get('ref', {}).get('k') in ('Parm', 'Local'):
+                    key = 'M:%d.%s' % (o['ref']['id'], e['callee']['n'])
+        self._pk[(fn.id, e['i'])] = key
+        return key
+
+    @staticmethod
+    def kill_pure(env):
+        for k_ in [k_ for k_ in env if isinstance(k_, str)]:
+            del env[k_]
+
     def eval(self, fn, e, env, depth, site_itv=None):
         if e is None:
             return TOP
         k = e['k']
+        if k in ('MemberExpr', 'CXXMemberCallExpr'):
+            pk = self.pure_key(fn, e)
+            if pk is not None and pk in env:
+                return env[pk]
         if 'cv' in e and k in ('IntegerLiteral', 'CharacterLiteral', 'CXXBoolLiteralExpr'):
             return (e['cv'], e['cv'])
         r = e.get('ref')
@@ -385,6 +437,8 @@ class Intervals:
                     self.eval(fn, a, env, depth, site_itv)
                 if t.get('ref', {}).get('k') in ('Local', 'Parm'):
                     env[t['ref']['id']] = self.wrap(v, t)
+                else:
+                    self.kill_pure(env)
                 return v
             if op == ',':
                 self.eval(fn, a, env, depth, site_itv)
@@ -403,6 +457,8 @@ class Intervals:
                 t = strip_casts(a)
                 if t.get('ref', {}).get('k') in ('Local', 'Parm'):
                     env[t['ref']['id']] = self.wrap(v, t)
+                else:
+                    self.kill_pure(env)
             return v
         if k == 'ConditionalOperator':
             c, a, b = kids(e)
@@ -449,8 +505,17 @@ class Intervals:
             args = ks[1:]
         vals = [self.eval(fn, a, env, depth, site_itv) for a in args]
         if not c:
+            self.kill_pure(env)
             return self.type_range(e)
         nm = c['n']
+        if not c.get('const') and not c.get('static') and e['k'] == 'CXXMemberCallExpr':
+            self.kill_pure(env)
+        elif e['k'] in ('CallExpr', 'CXXConstructExpr') and not nm.startswith('engine::operator') and \
+                any(pt.endswith('&') and not pt.startswith('const ') for pt in _ptypes(c['fid'])):
+            self.kill_pure(env)
+        # shift sites: square_bb(x) is 1ULL << x
+        if nm == 'engine::square_bb' and site_itv is not None and self.shift_sites and vals:
+            site_itv[e['i']] = hull(site_itv.get(e['i']), vals[0])
         # by-reference integer arguments are clobbered
         ptypes = _ptypes(c['fid'])
         for a, pt in zip(args, ptypes):
@@ -498,20 +563,37 @@ class Intervals:
             key = (g.id, tuple(vals))
             if key in self.memo:
                 r = self.memo[key]
+                self._apply_outs(args, ptypes, self.memo_out.get(key), env)
                 return r if r is not None else self.type_range(e)
             self.memo[key] = None       # recursion guard
+            outs = None
             try:
                 pv = vals
                 if e['k'] == 'CXXOperatorCallExpr' and g.cls:
                     pv = vals[1:]
-                r, _, _ = self.analyse(g, pv, depth + 1)
+                r, _, ginb = self.analyse(g, pv, depth + 1)
+                xenv = ginb.get(g.cfg.exit)
+                if xenv is not None:
+                    outs = [xenv.get(q['id']) for q in g.params]
             except AnalysisBroken:
                 r = None
             if r is not None:
                 r = self.wrap(r, e) if self.type_range(e, False) != TOP else r
             self.memo[key] = r
+            self.memo_out[key] = outs
+            self._apply_outs(args, ptypes, outs, env)
             return r if r is not None else self.type_range(e)
         return self.type_range(e)
+
+    def _apply_outs(self, args, ptypes, outs, env):
+        """values of non-const reference parameters at the callee's exit flow back into the caller's locals"""
+        if not outs:
+            return
+        for a, pt, o in zip(args, ptypes, outs):
+            if o is not None and pt.endswith('&') and not pt.startswith('const '):
+                t = strip_casts(a)
+                if t.get('ref', {}).get('k') in ('Local', 'Parm'):
+                    env[t['ref']['id']] = self.wrap(o, t)
 
     def _fits_enum_step(self, cur, d, t):
         return cur is not None and not math.isinf(cur[0]) and not math.isinf(cur[1])
@@ -560,9 +642,13 @@ class Intervals:
                                                    (b, vb, va, {'<': '>', '>': '<', '<=': '>=', '>=': '<=', '==': '==', '!=': '!='}[op]))):
                 t = _through_casts(x)
                 if t.get('ref', {}).get('k') not in ('Local', 'Parm'):
-                    continue
-                vid = t['ref']['id']
-                cur = e2.get(vid) or self.type_range(t)
+                    vid = self.pure_key(fn, t) if t else None
+                    if vid is None:
+                        continue
+                    cur = e2.get(vid) or vx
+                else:
+                    vid = t['ref']['id']
+                    cur = e2.get(vid) or self.type_range(t)
                 if o == '<':
                     new = meet(cur, (-INF, vy[1] - 1))
                 elif o == '<=':
@@ -605,9 +691,15 @@ def _flat(v):
     return [v]
 
 
+_PT = {}
+
+
 def _ptypes(fid):
-    from prog import _param_types
-    return _param_types(fid)
+    r = _PT.get(fid)
+    if r is None:
+        from prog import _param_types
+        r = _PT[fid] = _param_types(fid)
+    return r
 
 
 def _arith(op, a, b):
